@@ -21,6 +21,7 @@ require (
 	github.com/libp2p/go-libp2p-core v0.8.5
 	github.com/libp2p/go-libp2p-gorpc v0.1.3
 	github.com/libp2p/go-libp2p-kad-dht v0.12.2
+	github.com/libp2p/go-libp2p-pubsub v0.4.1
 	github.com/multiformats/go-multiaddr v0.3.3
 	github.com/multiformats/go-multihash v0.0.15
 )
@@ -128,7 +129,6 @@ require (
 	github.com/libp2p/go-libp2p-noise v0.2.0 // indirect
 	github.com/libp2p/go-libp2p-peerstore v0.2.7 // indirect
 	github.com/libp2p/go-libp2p-pnet v0.2.0 // indirect
-	github.com/libp2p/go-libp2p-pubsub v0.4.1 // indirect
 	github.com/libp2p/go-libp2p-quic-transport v0.11.1 // indirect
 	github.com/libp2p/go-libp2p-raft v0.1.7 // indirect
 	github.com/libp2p/go-libp2p-record v0.1.3 // indirect
